@@ -113,5 +113,5 @@ def check(res):
     helpers_race(res)
 
 
-PROPFILE = None
+PROPFILE = "theories/Properties/C16.v"
 replay = genprop.replay
